@@ -7,6 +7,7 @@ import (
 	"sort"
 	"strings"
 	"sync"
+	"sync/atomic"
 	"time"
 
 	"github.com/kelindar/column"
@@ -35,6 +36,7 @@ type Coll struct {
 	Keys       []string // key alphabet probed by dumps
 	Restoring  bool     // a Restore is running: insert markers of untracked rows are logged as runs
 	fillerKeys int      // keys handed to filler rows of a keyed collection
+	writes     int64    // number of writes issued so far (selects the writer flavor)
 
 	fmu      sync.Mutex
 	fired    map[string][]Ev // trigger calls since the last apply event
@@ -235,6 +237,19 @@ func (c *Coll) takeFired() map[string][]Ev {
 func (c *Coll) Write(t string, r column.Row, d ColDesc, k string, v any) {
 	name := d.Name
 	mrg := k == "mrg"
+	// every third put goes through the untyped writers (Row.SetAny, Row.SetMany), which pick the encoding from the
+	// Go type of the value
+	if fl := atomic.AddInt64(&c.writes, 1) % 6; !mrg && d.Kind != "key" && (fl == 2 || fl == 5) {
+		if tv, ok := typedAny(d, v); ok {
+			if fl == 2 {
+				r.SetAny(name, tv)
+			} else if err := r.SetMany(map[string]any{name: tv}); err != nil {
+				panic("SetMany: " + err.Error())
+			}
+			c.W.T.Log(Ev{"e": "w", "t": t, "n": name, "k": k, "o": int(r.Index()), "v": v})
+			return
+		}
+	}
 	switch d.Kind {
 	case "bool":
 		r.SetBool(name, v.(bool))
@@ -358,6 +373,96 @@ func (c *Coll) Write(t string, r column.Row, d ColDesc, k string, v any) {
 		}
 	}
 	c.W.T.Log(Ev{"e": "w", "t": t, "n": name, "k": k, "o": int(r.Index()), "v": v})
+}
+
+// typedAny is the value as the Go type that the column's own typed writer would have been given.
+func typedAny(d ColDesc, v any) (any, bool) {
+	num := func(bits uint64, x int, tok bool) (any, bool) {
+		switch d.Repr {
+		case "int":
+			if tok {
+				return int(bits), true
+			}
+			return x, true
+		case "int16":
+			if tok {
+				return int16(bits), true
+			}
+			return int16(x), true
+		case "int32":
+			if tok {
+				return int32(bits), true
+			}
+			return int32(x), true
+		case "int64":
+			if tok {
+				return int64(bits), true
+			}
+			return int64(x), true
+		case "uint":
+			if tok {
+				return uint(bits), true
+			}
+			return uint(x), true
+		case "uint16":
+			if tok {
+				return uint16(bits), true
+			}
+			return uint16(x), true
+		case "uint32":
+			if tok {
+				return uint32(bits), true
+			}
+			return uint32(x), true
+		case "uint64":
+			if tok {
+				return bits, true
+			}
+			return uint64(x), true
+		case "float32":
+			if tok {
+				return math.Float32frombits(uint32(bits)), true
+			}
+			return float32(x), true
+		case "float64":
+			if tok {
+				return math.Float64frombits(bits), true
+			}
+			return float64(x), true
+		case "record":
+			if !tok {
+				return &Rec{int64(x)}, true
+			}
+		}
+		return nil, false
+	}
+	switch d.Kind {
+	case "bool":
+		return v.(bool), true
+	case "str":
+		if d.Repr == "recordvar" {
+			return &RecVar{SeqToString(v)}, true
+		}
+		return SeqToString(v), true
+	case "enum":
+		return EnumTokens[v.(string)], true
+	case "int":
+		return num(0, toInt(v), false)
+	case "tok":
+		tok := v.(string)
+		switch d.Repr {
+		case "string":
+			return StringTokens[tok], true
+		case "recordvar":
+			return &RecVar{StringTokens[tok]}, true
+		case "float64":
+			return num(f64Tokens[tok], 0, true)
+		case "float32":
+			return num(uint64(f32Tokens[tok]), 0, true)
+		}
+		return num(intTokens(d.Repr)[tok], 0, true)
+	}
+	return nil, false
 }
 
 // ---- reads -----------------------------------------------------------------------------------
